@@ -6,6 +6,7 @@ import (
 	"strconv"
 	"strings"
 	"time"
+	"unicode/utf8"
 
 	"verif/internal/model"
 	"verif/internal/orch"
@@ -94,6 +95,28 @@ func (g *c15Gen) attrs(n int) []scen.Arg {
 	return out
 }
 
+// c15Raw gives some messages a tail of arbitrary bytes (valid multi-byte text, lone continuation bytes,
+// truncated sequences, 0xff): "the same message" means the same bytes.
+func c15Raw(r *scen.Rng, op scen.Op) scen.Op {
+	if !r.Chance(1, 5) {
+		return op
+	}
+	tails := [][]byte{[]byte("caf\xc3\xa9"), {0xff, 0xfe}, []byte("\xe2\x82"), {0x80}, []byte("\xf0\x9f\x98"), []byte("\xef\xbf\xbd real"), {0xc0, 0xaf}, []byte("ok \xe4\xb8\xad\xe6\x96\x87")}
+	x := append([]byte(op.Msg+" "), scen.Pick(r, tails)...)
+	if r.Bool() {
+		x = append(append(x, ' '), scen.Pick(r, tails)...)
+	}
+	op.X = append(x, 'z')
+	return op
+}
+
+func c15Msg(op *scen.Op) string {
+	if len(op.X) > 0 {
+		return string(op.X)
+	}
+	return op.Msg
+}
+
 func (p *C15) Gen(seed uint64, i int, tier string) *scen.Scenario {
 	r := scen.NewRng(scen.Mix(seed, scen.HashString("C15"), uint64(i)))
 	g := &c15Gen{r: r}
@@ -149,11 +172,11 @@ func (p *C15) Gen(seed uint64, i int, tier string) *scen.Scenario {
 				sc.Setup = append(sc.Setup, scen.Op{Op: "handler_enabled", L: h, Lvl: lv})
 				if r.Chance(2, 3) {
 					t := nt()
-					sc.Setup = append(sc.Setup, scen.Op{Op: "handler_handle", L: h, Lvl: lv, T: ts(), Msg: "h" + t, Tok: t, Args: g.attrs(r.Intn(5)), Probe: true})
+					sc.Setup = append(sc.Setup, c15Raw(r, scen.Op{Op: "handler_handle", L: h, Lvl: lv, T: ts(), Msg: "h" + t, Tok: t, Args: g.attrs(r.Intn(5)), Probe: true}))
 				}
 				if r.Chance(1, 3) {
 					t := nt()
-					sc.Setup = append(sc.Setup, scen.Op{Op: "slog_log", L: h, Lvl: lv, Msg: "s" + t, Tok: t, Args: g.attrs(r.Intn(4)), Probe: true})
+					sc.Setup = append(sc.Setup, c15Raw(r, scen.Op{Op: "slog_log", L: h, Lvl: lv, Msg: "s" + t, Tok: t, Args: g.attrs(r.Intn(4)), Probe: true}))
 				}
 			}
 			if r.Chance(1, 2) {
@@ -210,7 +233,11 @@ func (p *C15) Gen(seed uint64, i int, tier string) *scen.Scenario {
 			case 3:
 				msg = scen.Pick(r, []string{"\r", " ", "a\rb"}) + msg + scen.Pick(r, []string{"\r\n", "\r", ""})
 			}
-			sc.Setup = append(sc.Setup, scen.Op{Op: "bridge_print", L: k + 1, Kind: kind, Msg: msg, Tok: t, Probe: true, Lvl: S})
+			bp := scen.Op{Op: "bridge_print", L: k + 1, Kind: kind, Msg: msg, Tok: t, Probe: true, Lvl: S}
+			if msg == "b"+t {
+				bp = c15Raw(r, bp) // (only messages without line-end games get a raw tail)
+			}
+			sc.Setup = append(sc.Setup, bp)
 		}
 	}
 	// Entry.Log with log/slog level values
@@ -407,7 +434,8 @@ func (p *C15) Check(sc *scen.Scenario, run *orch.Run, env *orch.Env) []orch.Viol
 					add("C15.severity", how+" want="+wantLevelName, "%s record carries level %q, expected %q", how, lv, wantLevelName)
 				}
 			}
-			if wantMsg != "" && format != fmtColor {
+			if wantMsg != "" && format != fmtColor && (format != fmtJSON || utf8.ValidString(wantMsg)) {
+				// (bytes that are not UTF-8 have no exact JSON form: C04 promises exactness for valid UTF-8 only)
 				if m := msgFieldRe.FindStringSubmatch(text); m != nil {
 					if got, err := strconv.Unquote(m[1] + m[2]); err == nil && got != wantMsg {
 						add("C15.message", how, "%s record has msg %q, expected %q", how, got, wantMsg)
@@ -547,7 +575,7 @@ func (p *C15) Check(sc *scen.Scenario, run *orch.Run, env *orch.Env) []orch.Viol
 				if !h.base {
 					how = "derived.Handle"
 				}
-				checkRecord(how, sev, c15Want(run, op.Lvl), "h"+op.Tok, h, op.Args, op.T)
+				checkRecord(how, sev, c15Want(run, op.Lvl), c15Msg(op), h, op.Args, op.T)
 			} else {
 				// non-standard level: it must not become a terminating severity
 				for _, w := range o.Writes {
@@ -566,15 +594,15 @@ func (p *C15) Check(sc *scen.Scenario, run *orch.Run, env *orch.Env) []orch.Viol
 				if !h.base {
 					how = "derived slog.Logger"
 				}
-				checkRecord(how, sev, c15Want(run, op.Lvl), "s"+op.Tok, h, op.Args, nil)
+				checkRecord(how, sev, c15Want(run, op.Lvl), c15Msg(op), h, op.Args, nil)
 			}
 		case "bridge_print":
 			S := op.Lvl
 			// what log.Logger hands to its writer: Print/Printf add a newline unless the text
 			// ends with one, Println always adds one; the record is that buffer minus one newline.
-			wantMsg := strings.TrimSuffix(op.Msg, "\n")
+			wantMsg := strings.TrimSuffix(c15Msg(op), "\n")
 			if op.Kind == "println" {
-				wantMsg = op.Msg
+				wantMsg = c15Msg(op)
 			}
 			checkRecord("bridge", S, worldLevelName(run, S), wantMsg, nil, nil, nil)
 			if op.Kind == "write" && admitted(S) == model.Admit {
@@ -582,7 +610,7 @@ func (p *C15) Check(sc *scen.Scenario, run *orch.Run, env *orch.Env) []orch.Viol
 					N int `json:"n"`
 				}
 				if retInto(o, &ret) {
-					full := len(op.Msg)
+					full := len(c15Msg(op))
 					if ret.N != full {
 						add("C15.bridge.n", "write", "bridge Write of %d bytes reported %d", full, ret.N)
 					}
